@@ -31,6 +31,8 @@ type Plan struct {
 	// FlushOp behaviour when this request is the *target* of a flush seen by the implementation
 	OnFlush int // 0 ignore, 1 req.Flush(), 2 answer the target now
 	SecondErr bool // the second (duplicate) answer is an Rerror
+	StatNameLen int // >0: Rstat name padded to this length
+	ErrLen      int // >0: error text padded to this length
 }
 
 type Inv struct {
@@ -212,6 +214,9 @@ func (f *ScriptFS) answer(inv *Inv, variant int) {
 	}
 	if (p.Err && variant == 0) || (p.SecondErr && variant == 1) {
 		txt := fmt.Sprintf("scripted error %x", u&0xFFFFFF)
+		for len(txt) < p.ErrLen {
+			txt += "e"
+		}
 		m = &Msg{Type: Rerror, Ename: txt, Errno: uint32(u>>24) & 0xFFFF}
 		f.setExpect(inv, variant, m)
 		req.RespondError(&go9p.Error{Err: txt, Errornum: m.Errno})
@@ -273,8 +278,12 @@ func (f *ScriptFS) answer(inv *Inv, variant int) {
 		f.setExpect(inv, variant, m)
 		req.RespondRremove()
 	case "stat":
+		name := fmt.Sprintf("n%06x", u&0xFFFFFF)
+		for len(name) < p.StatNameLen {
+			name += "s"
+		}
 		d := &go9p.Dir{Type: uint16(u), Dev: uint32(u >> 16), Qid: go9p.Qid{Type: inv.FidType, Version: 1, Path: u}, Mode: 0o644, Atime: 5, Mtime: uint32(u >> 3),
-			Length: u >> 20, Name: fmt.Sprintf("n%06x", u&0xFFFFFF), Uid: "uid", Gid: "gid", Muid: "muid", Ext: "", Uidnum: 1, Gidnum: 2, Muidnum: 3}
+			Length: u >> 20, Name: name, Uid: "uid", Gid: "gid", Muid: "muid", Ext: "", Uidnum: 1, Gidnum: 2, Muidnum: 3}
 		m = &Msg{Type: Rstat, Stat: Stat{Type: d.Type, Dev: d.Dev, Qid: Qid{d.Qid.Type, 1, u}, Mode: d.Mode, Atime: 5, Mtime: d.Mtime, Length: d.Length,
 			Name: d.Name, Uid: "uid", Gid: "gid", Muid: "muid", Nuid: 1, Ngid: 2, Nmuid: 3}}
 		f.setExpect(inv, variant, m)
